@@ -165,8 +165,10 @@ def rule_process_data(ctx, f):
             if c0.k == "BinaryOperator" and c0.op == ">" and key(c0.c[0].strip()) == binv + ".get_bin_value()" and key(c0.c[1].strip()) in ("0", "0.0"):
                 first = True
                 break
-    pos = True  # positivity is required at the acceptance test (checked structurally as `first`), the normalisation may change the value afterwards
-    ctx.ob("C14.c-store-bounded", f.qn, "bin-value-positive-first", pos and first, st.where(), "bin_value > 0 is the first test of the acceptance chain (an event outside the template never reaches the per-segment accessors)" if pos and first else "acceptance does not start with bin_value > 0 (positive=%s, first=%s)" % (pos, first))
+    ctx.ob("C14.c-store-bounded", f.qn, "bin-value-positive-first", first, st.where(), "bin_value > 0 is the first test of the acceptance chain (an event outside the template never reaches the per-segment accessors)" if first else "acceptance does not start with bin_value > 0")
+    # ... and positivity still holds AT the store: whatever changes the value after the acceptance test (the post-normalisation marks
+    # bins of too low efficiency with -1, `Event ignored`) is followed by another test (F68: -1 times the increment was added)
+    ctx.ob("C14.c-store-bounded", f.qn, "bin-value-positive-at-the-store", pos, st.where(), "bin_value > 0 is known where the value is added to the sinogram" if pos else "the value added to the sinogram is not known to be positive at the store: a step after the acceptance test (the post-normalisation) can mark the event as ignored (value <= 0), and that value times the increment is then added all the same")
     # ---- d: increment
     ok = False
     det = "the amount stored has no local increment factor"
@@ -484,6 +486,42 @@ def rule_k_cache_follows_the_model(ctx, fns):
     return n
 
 
+def rule_l_undecoded_event_is_marked_rejected(ctx, f):
+    """get_bin_from_event(bin, event): the caller hands in a bin with value 1 and default coordinates (0,0,0,0) and stores the event
+    when the value is positive afterwards.  Every return path therefore either decodes the event into THAT bin (event.get_bin(bin, ..))
+    or sets its value to a non-positive number - an early return that does neither is counted in bin (0,0,0,0) (F69)."""
+    RULE = "C14.l-undecoded-event-marked-rejected"
+    if len(f.params) != 2 or not f.cfg_raw:
+        ctx.unrec(f.qn, "C14.l: expected get_bin_from_event(bin, event) with a body")
+        return 0
+    cfg = CFG(f)
+    b = "v%d" % f.params[0]["d"]
+
+    def settles(x):
+        if not x.is_call():
+            return False
+        short = (x.callee or "").split("::")[-1]
+        if short == "get_bin" and x.call_args() and key(x.call_args()[0].strip()) == b:
+            return True
+        if short == "set_bin_value" and x.call_object() is not None and key(x.call_object().strip()) == b and x.call_args():
+            a = x.call_args()[0].strip()
+            k_ = key(a)
+            return bool(re.fullmatch(r"\(- [0-9.]+\)|-[0-9.]+|0|0\.0", k_))
+        return False
+
+    w = cfg.paths_avoiding([(cfg.entry, -1)], settles)
+    ok = w is None
+    rets = [m for m in f.walk() if m.k == "ReturnStmt" and m.i in cfg.pos]
+    which = ""
+    if not ok:
+        for r in rets:
+            if cfg.must_pass_from_entry([r], settles) is not None:
+                which = " (return at line %d)" % r.line
+                break
+    ctx.ob(RULE, f.qn, "every-return", ok, f.where(), "on every path to a return the event was decoded into the caller's bin or the bin was given a non-positive value" if ok else "a path returns%s without decoding the event into the caller's bin and without marking it rejected: the caller's bin still has value 1 and coordinates (0,0,0,0), so the event is counted there" % which)
+    return 1
+
+
 def _subscript_chain(n):
     idx = []
     n = n.strip()
@@ -519,6 +557,12 @@ def run(ctx):
         return
     register_callee_effects(ctx, us[0].functions)
     rule_process_data(ctx, pd[0])
+    gb = [f for f in us[0].functions if f.short == "get_bin_from_event" and f.body is not None]
+    if not gb:
+        ctx.fail_broken("anchor LmToProjData::get_bin_from_event not found")
+    else:
+        rule_l_undecoded_event_is_marked_rejected(ctx, gb[0])
+        ctx.require_count("C14.l-undecoded-event-marked-rejected", 1)
     from engine import cfg as cfgmod
 
     cfgmod.REFINED_KILLS.clear()
@@ -540,5 +584,5 @@ def run(ctx):
     rule_k_cache_follows_the_model(ctx, us[3].functions + us[4].functions)
     ctx.require_count("C14.k-event-cache-follows-the-model", 1)
     ctx.require_count("C14.a-batches-partition", 6)
-    ctx.require_count("C14.c-store-bounded", 4)
+    ctx.require_count("C14.c-store-bounded", 5)
     ctx.require_count("C14.d-increment", 3)
